@@ -19,7 +19,11 @@ pub const SCHEMA: &str = r##"{
                            "n":{"type":"number"},"o":{"$ref":"#/definitions/Other"},"c":{"$ref":"#/definitions/Col"}},
              "required":["f"]},
     "Other": {"type":"object","properties":{"s":{"type":"string"}}},
-    "Col": {"type":"string","enum":["r","g"]}
+    "Col": {"type":"string","enum":["r","g"]},
+    "WrapOther": {"$ref":"#/definitions/Other"},
+    "OtherOrCol": {"oneOf":[{"$ref":"#/definitions/Other"},{"$ref":"#/definitions/Col"}]},
+    "WrapNum": {"type":"number"},
+    "NumOrCol": {"oneOf":[{"type":"number"},{"$ref":"#/definitions/Col"}]}
   }
 }"##;
 
